@@ -87,6 +87,17 @@ CHECKS['C08'] = ('chi2',
 ENGINES['moveatom'] = ('harness/drivers/moveatom.py', 'MoveAtom.tla + generated MC_MoveAtomCases + Trace_MoveAtom.tla')
 ENGINES['chi2'] = ('harness/drivers/chi2.py', 'Chi2.tla + MC_Chi2.tla + Trace_Chi2.tla')
 
+CHECKS['C09'] = ('montecarlo',
+  'MonteCarlo.tla: the search loop as a state machine (Start, Choose, Evaluate, JudgeBetter, JudgeWorse, Stop) with the loop bookkeeping (held, heldE, minE, counter); MC_MonteCarlo.tla proves with TLC that the bookkeeping equals what the property demands as functions of the history alone (last accepted configuration, lowest accepted measure, consecutive steps without a new lowest measure) and that the search stops exactly at the budget; every terminal TLC behaviour is imposed on the real _minimize_molecules as a scripted schedule and compared, genuine runs are validated by TLC against Trace_MonteCarlo.tla, which infers counter and minimum itself',
+  'Exhaustive: measures 1..3 (ties with the held and with the lowest measure), budgets <= 2 (thorough 3), type sets, every draw outcome: 2.5e5 states, ~1e4 terminal behaviours, each replayed on the real loop with a scripted overlap measure, scripted kind choice and adverse/favourable uniform draws (real proposals): judge inputs, verdicts, number of evaluations consumed and the returned array must equal the TLC behaviour. Genuine seeded runs (mobile molecules 1..25 atoms as random trees / cyclic graphs, 1..40 fixed atoms, all type subsets, budgets 1..400 (thorough 2000), five restraint shapes) are recorded through wrappers of Chi2Calculator / accept_metropolis / move_mol_atom / numpy.random.choice / rand: each proposal must be a translation / rotation about the centroid / bond-keeping single-atom move OF THE HELD configuration, the judge must receive the held measure, worse proposals follow the observed draw against 0.01*E_held/E_new, and Return must come exactly when the inferred counter reaches the budget and carry the last accepted configuration. accept_metropolis is additionally called directly (per-draw rule and 6-sigma frequencies).',
+  'Trusts: TLC; harness/project.py relation measurements (1e-9 / 1e-11); the loop resolves the wrapped names at call time (otherwise exit 2, observation channel lost); termination is not claimed (genuine runs are cut after 40 x budget + 3000 steps and the prefix validated); NaN measures are outside the domain.', 'DESIGN 3 C09')
+ENGINES['montecarlo'] = ('harness/drivers/montecarlo.py', 'MonteCarlo.tla + MC_MonteCarlo.tla + Trace_MonteCarlo.tla: exhaustive TLC, scripted-schedule replay on the real loop, trace validation of genuine runs')
+CHECKS['C06'] = ('alignment',
+  'Alignment.tla: align_molecules as a state machine over shape levels (identical / translated / rigid / bonds kept / anything) of the caller\'s molecules and the Alignment\'s copies, with Promise() = the property\'s statement; MC_Alignment.tla proves Kept, CallerUntouched, LargerOnlyTranslated, MobileKeepsStructure, OnlyMobileWritten for every size relation, type subset and schedule; real Alignment.align_molecules runs are recorded (setter copies, optimiser entry, every Monte-Carlo step through the C09 observer, write-back, final measured levels, repetition with the same seed) and validated by TLC against Trace_Alignment.tla',
+  'Every configuration class TLC enumerates (sizes 1..3 (4) x 1..3 (4), 7 type subsets, tree/cyclic) is run on real molecules built through the real parsers, plus 500 (5000) random pairs of 1..40 atoms (size classes <, =, >, one-atom end, one-atom start; restraints; hydrogens; re-assignment of start/end through the setters; a degenerate star whose displacement direction is 0/0; step factors 1..10 (50)): the specification decides which molecule must be mobile, that the fixed rows are the larger molecule, that each accepted move is a translation / rigid motion / bond-keeping move, that the result is written to the mobile copy only, and that the final levels measured against the caller\'s conformations satisfy Promise (bonds to 1e-9, all pairwise distances when single-atom moves are off, caller untouched bit for bit, finite, names/order), bit-identical when repeated with the same seed.',
+  'Trusts: TLC; harness/project.py; runs cut by the step cap (300 x budget + 30000 steps) are skipped and counted; larger molecule has a bond and a non-hydrogen atom, mobile molecule connected.', 'DESIGN 3 C06')
+ENGINES['alignment'] = ('harness/drivers/alignment.py', 'Alignment.tla + MC_Alignment.tla + Trace_Alignment.tla; reuses the montecarlo observer')
+
 PENDING_REASON = 'check not built yet in this round (build in progress; see DESIGN.md Appendix B)'
 
 
